@@ -63,7 +63,7 @@ package aggregator
 //@ // -- interface level (what the aggregator relies on)
 //@ iface (p Processor) Add(val float64, ts uint32)
 //@   property C10
-//@   modifies p.vals, p.tss, allof("aggregator.Avg.sum"), allof("aggregator.Avg.cnt"), allof("aggregator.Count.cnt"), allof("aggregator.Delta.max"), allof("aggregator.Delta.min"), allof("aggregator.Derive.oldestTs"), allof("aggregator.Derive.newestTs"), allof("aggregator.Derive.oldestVal"), allof("aggregator.Derive.newestVal"), allof("aggregator.Last.val"), allof("aggregator.Max.val"), allof("aggregator.Min.val"), allof("aggregator.Sum.sum")
+//@   modifies p.vals, p.tss, allof("aggregator.Avg.sum"), allof("aggregator.Avg.cnt"), allof("aggregator.Count.cnt"), allof("aggregator.Delta.max"), allof("aggregator.Delta.min"), allof("aggregator.Derive.oldestTs"), allof("aggregator.Derive.newestTs"), allof("aggregator.Derive.oldestVal"), allof("aggregator.Derive.newestVal"), allof("aggregator.Last.val"), allof("aggregator.Max.val"), allof("aggregator.Min.val"), allof("aggregator.Sum.sum"), allof("aggregator.Stdev.sum"), allof("aggregator.Stdev.values"), allof("aggregator.Percentiles.values"), allof("[]float64")
 //@   ensures[contributes] contributed(p, val, ts)
 //@
 //@ // -- avg
@@ -225,6 +225,53 @@ package aggregator
 //@   property C10
 //@   requires sumRep(s)
 //@   ensures[sum] ok && one(results, "sum", foldAdd(s.vals))
+
+//@ // -- stdev: the values are kept (in arrival order) next to their running sum; the result is the population
+//@ //    standard deviation sqrt(sum_k (v_k - mean)^2 / n) with mean = sum / n, accumulated left to right
+//@ spec stdevRep(s *Stdev) bool := len(s.values) >= 1 && llen(s.vals) == len(s.values) && s.sum == foldAdd(s.vals)
+//@      && (forall j int :: 0 <= j && j < len(s.values) ==> eF(s.values[j]) == lget(s.vals, j))
+//@ func NewStdev(val float64, ts uint32) Processor
+//@   property C10
+//@   ghostset result.vals := lnil ++ eF(val)
+//@   ghostset result.tss := lnil ++ eI(ts)
+//@   ensures[first] firstPoint(result, val, ts) && typeIs(result, *Stdev) && stdevRep(as(result, *Stdev))
+//@ func (s *Stdev) Add(val float64, ts uint32)
+//@   property C10
+//@   requires stdevRep(s)
+//@   ghostset s.vals := old(s.vals) ++ eF(val)
+//@   ghostset s.tss := old(s.tss) ++ eI(ts)
+//@   modifies s.sum, s.values, s.values[..], s.vals, s.tss
+//@   ensures[contributes] s.vals == old(s.vals) ++ eF(val) && s.tss == old(s.tss) ++ eI(ts)
+//@   ensures[rep] stdevRep(s)
+//@ smt (declare-fun sdAcc (Int Int) F64)
+//@ func (s *Stdev) Flush() (results []processorResult, ok bool)
+//@   property C10
+//@   requires stdevRep(s)
+//@   let n := len(s.values)
+//@   let mean := fdiv(s.sum, f64ofint(len(s.values)))
+//@   define sdAcc(s, 0) == f64zero
+//@   define forall k int :: 0 <= k && k < len(s.values) ==> sdAcc(s, k + 1) == fadd(sdAcc(s, k), fpow(fsub(s.values[k], mean), f64ofint(2)))
+//@   ensures[stdev] ok && one(results, "stdev", fsqrt(fdiv(sdAcc(s, n), f64ofint(n))))
+//@   loop 1:
+//@     invariant[idx] 0 <= #i && #i <= len(#s) && #s == s.values
+//@     invariant[accumulated] variance == sdAcc(s, #i)
+//@
+//@ // -- percentiles: the contributed values are kept; the rank arithmetic of Flush is not specified
+//@ spec pctRep(p *Percentiles) bool := len(p.values) >= 1 && llen(p.vals) == len(p.values)
+//@      && (forall j int :: 0 <= j && j < len(p.values) ==> eF(p.values[j]) == lget(p.vals, j))
+//@ func NewPercentiles(val float64, ts uint32) Processor
+//@   property C10
+//@   ghostset result.vals := lnil ++ eF(val)
+//@   ghostset result.tss := lnil ++ eI(ts)
+//@   ensures[first] firstPoint(result, val, ts) && typeIs(result, *Percentiles) && pctRep(as(result, *Percentiles))
+//@ func (p *Percentiles) Add(val float64, ts uint32)
+//@   property C10
+//@   requires pctRep(p)
+//@   ghostset p.vals := old(p.vals) ++ eF(val)
+//@   ghostset p.tss := old(p.tss) ++ eI(ts)
+//@   modifies p.values, p.values[..], p.vals, p.tss
+//@   ensures[contributes] p.vals == old(p.vals) ++ eF(val) && p.tss == old(p.tss) ++ eI(ts)
+//@   ensures[rep] pctRep(p)
 
 // ---------------------------------------------------------------- aggregator.go: buckets (C10)
 // The aggregator's clock as seen through a.now(): a ghost integer (seconds); the property's
